@@ -119,7 +119,7 @@ void OPNMIDIplay::applySetup()
 
     synth.m_runAtPcmRate            = m_setup.runAtPcmRate;
 
-    synth.m_scaleModulators         = (m_setup.ScaleModulators != 0);
+    synth.m_scaleModulators         = (m_setup.ScaleModulators > 0);
 
     if(m_setup.LogarithmicVolumes != 0)
         synth.setVolumeScaleModel(OPNMIDI_VolumeModel_NativeOPN2);
